@@ -326,6 +326,34 @@ def run_gen_params(files, graph, mods, name="verif", argv=None, lib=None, shared
             _drop_pending_writes()
 
 
+def run_gen_params_in_dir(tmpdir, files, graph, mods, name="verif"):
+    """`gen_params` on files written to FIXED paths inside `tmpdir` (in<i>.<ext>, graph.json, out.itp): a second
+    call with other content re-uses the same paths, as an edit-and-rerun script does"""
+    from polyply.src.gen_itp import gen_params
+    for old in pathlib.Path(tmpdir).glob("in*.*"):
+        old.unlink()
+    paths = write_files(files, tmpdir)
+    seq = pathlib.Path(tmpdir) / "graph.json"
+    seq.write_text(json.dumps(gen.to_json_graph(graph)))
+    outpath = pathlib.Path(tmpdir) / "out.itp"
+    if outpath.exists():
+        outpath.unlink()
+    old_argv, old_stdout = sys.argv, sys.stdout
+    sys.argv = ["polyply", "gen_params"]
+    sys.stdout = io.StringIO()
+    try:
+        gen_params(name=name, outpath=outpath, inpath=paths, lib=None, seq=None, seq_file=seq,
+                   mods=[list(m) for m in (mods or [])])
+        if not outpath.exists():
+            return dict(ok=False, err="no-output")
+        return dict(ok=True, text=outpath.read_text())
+    except Exception as err:  # pylint: disable=broad-except
+        return dict(ok=False, err=type(err).__name__, errtext=str(err)[:200])
+    finally:
+        sys.argv, sys.stdout = old_argv, old_stdout
+        _drop_pending_writes()
+
+
 def _drop_pending_writes():
     """a failed gen_params leaves its temp file queued in vermouth's DeferredFileWriter singleton"""
     try:
